@@ -8,7 +8,7 @@ from ..terms import A, C, F, V, L, NIL, call, conj, TRUE, show_clause, show_term
 ID = 'C09'
 LEVEL = 'model_checking'
 RULE = ('every program t(..) :- [Gv = Goal,] Builtin for Builtin in {call(G), call(G\',Extra..) for every split of '
-        'the goal\'s arguments into carried and extra arguments (<= 2 extra; for the 12- and 6-argument predicates every split, i.e. call/1 .. call/13), once(G), \\+ call(G), findall(T,G,L) for 6 templates, '
+        'the goal\'s arguments into carried and extra arguments (<= 2 extra; for the 12- and 6-argument predicates every split, i.e. call/1 .. call/13; and call(call(G,A..),B..) with extra arguments at both levels for every split), once(G), \\+ call(G), findall(T,G,L) for 6 templates, '
         'each optionally followed by a continuation goal or used twice in a row on the same goal term} x goal in {atoms and compound goals with 0/1/2 solutions '
         'over compiled facts, a rule, dynamic facts, an undefined predicate} x goal written inline, arriving in a '
         'variable bound at run time, or through a chain of two variables aliased before the goal is bound [thorough: x one level of nesting of the builtins inside each other], each '
@@ -100,6 +100,22 @@ def programs(nesting):
                 # consume or alter the goal it is given)
                 yield idx, goal, tag, g2, mk, usesL, via_var, 'twice'
                 idx += 1
+    # call/N whose goal is itself a call/N term, extra arguments at BOTH levels: call(call(G,A..),B..)
+    # runs G with A.. then B.. appended
+    for goal in [F('r', X, Y), F('w', X, Y), WIDE[1]]:
+        args = goal[2]
+        for i in range(0, len(args)):
+            for j in range(i + 1, len(args) + 1):
+                if j == len(args) and i == 0 and len(args) > 2:
+                    pass
+                inner_carried, inner_extra, outer_extra = args[:i], args[i:j], args[j:]
+                if not inner_extra or not outer_extra:
+                    continue
+                g0 = ('f', goal[1], tuple(inner_carried)) if inner_carried else ('a', goal[1])
+                g2 = F('call', g0, *inner_extra)
+                for via_var in (False, True):
+                    yield idx, goal, 'call(call/%d)/%d' % (1 + len(inner_extra), 1 + len(outer_extra)), g2, (lambda g, e=outer_extra: call(F('call', g, *e))), False, via_var, None
+                    idx += 1
     for goal in WIDE:
         for g2, extra in splits(goal, 99):
             for via_var in (False, True):
